@@ -196,8 +196,9 @@ def scenarios(tier):
                 out.append(Scenario('%s.%s.%s.after%s' % (lp, npol or 'none', f, prefix), rejected,
                                     dict(lp=lp, npol=npol, fault=f, prefix=prefix, cont=('P' if npol else 'AP') if q else 'APP',
                                          free_dec=(npol == 'tree' and f.startswith('pfit.feature_count'))),
-                                    weight=100 if big else 20, shards=3 if big else 1, max_paths=60000,
-                                    bounds=dict(lp=lp, np=npol, fault=f, history=prefix)))
+                                    weight=100 if big else (60 if lp == 'lingreedy' else 20),
+                                    shards=3 if big else (6 if lp == 'lingreedy' and 'feature_count' in f else 1),
+                                    max_paths=60000, bounds=dict(lp=lp, np=npol, fault=f, history=prefix)))
         out.append(Scenario('%s.%s.predict.before_fit' % (lp, npol or 'none'), rejected,
                             dict(lp=lp, npol=npol, fault='predict.before_fit', prefix='', cont='FP'), weight=30,
                             shards=3 if npol else 1, max_paths=60000))
@@ -205,6 +206,12 @@ def scenarios(tier):
             out.append(Scenario('%s.%s.first_fit.too_few_rows' % (lp, npol), rejected,
                                 dict(lp=lp, npol=npol, fault='first_fit.too_few_rows', prefix='', cont='PP'), weight=100,
                                 shards=4, max_paths=60000))
+    for lp in (['linucb'] if q else ['linucb', 'lingreedy', 'lints']):
+        for f in ('pfit.feature_count', 'pfit.feature_count_2rows'):
+            # with one feature numpy broadcasting accepts the wider batch: the rejection needs d >= 2
+            out.append(Scenario('%s.none.%s.afterF.d2' % (lp, f), rejected,
+                                dict(lp=lp, npol=None, fault=f, prefix='F', cont='AP', d=2), weight=60, shards=2,
+                                max_paths=60000, bounds=dict(lp=lp, fault=f, features=2)))
     out.append(Scenario('twin.ucb1', rejected, dict(lp='ucb1', npol='radius:cityblock', fault='pfit.feature_count', twin=True),
                         twin=True))
     return out
